@@ -57,8 +57,19 @@ def rule_a(ctx, ix, f):
     if len(keys) != 2:
         raise AnalysisError('compute_fixed_resolution_buffer: the two array-hash definitions are not recognised')
     for st in keys:
-        gs = [(unparse(g.test), br) for g, br in guard_chain(pm, st, f.node) if isinstance(g, ast.If)]
-        variant = 'value' if any(t.replace(' ', '') == 'subset_stateisNone' and br == 'body' for t, br in gs) else 'mask'
+        # value request (no selection given) or mask request: read off the condition under which this key is built
+        from .. import cond as _c
+        pc_ = _c.path_condition(f.node, st, expand=False) or ('const', True)
+        none_ = _c.T('is|None|subset_state')
+        try:
+            if _c.implies(pc_, none_) and pc_ != ('const', True):
+                variant = 'value'
+            elif _c.implies(pc_, _c.Not(none_)) and pc_ != ('const', True):
+                variant = 'mask'
+            else:
+                raise AnalysisError('compute_fixed_resolution_buffer: which request the key `%s` belongs to is not recognised' % norm(st))
+        except ValueError:
+            raise AnalysisError('compute_fixed_resolution_buffer: the condition of the key `%s` is too large' % norm(st))
         names = _names(st.value, f.node)
         need = need_common | ({'target_cid'} if variant == 'value' else {'subset_state'})
         for p in sorted(need):
@@ -204,6 +215,16 @@ def rule_c(ctx, ix, f):
                   'branch out-of-range samples keep the value of pixel 0' % ('cached' if not acc else 'other'), where=where(f, lp))
     use = [n for n in lp.body if isinstance(n, ast.If) and "['bounds']" in unparse(n.test)]
     if len(use) == 1:
+        # which arm is the cache hit: the one that reads the stored coordinates
+        hit_first = any("['translated_coord']" in unparse(x) or "['invalid']" in unparse(x) for st_ in use[0].body for x in ast.walk(st_)
+                        if isinstance(x, ast.Subscript) and isinstance(x.ctx, ast.Load) and 'PIXEL_CACHE' in unparse(x))
+        arms = (use[0].body, use[0].orelse) if hit_first else (use[0].orelse, use[0].body)
+
+        class _U(object):
+            body, orelse = arms
+            test = use[0].test
+            lineno = use[0].lineno
+        use = [_U]
         for body, which in ((use[0].body, 'cached'), (use[0].orelse, 'uncached')):
             ok = any(isinstance(st, ast.Assign) and unparse(st.targets[0]) == 'invalid' for st in body)
             ctx.ob(R, f.construct + ' ' + which, 'the %s branch defines the per-axis invalid mask' % which, ok,
